@@ -259,7 +259,7 @@ def check_w3(chk, fn, states, E):
                fn.loc, fn.name)
 
 
-def poly_equal(e1, e2, atoms, bits=32, where=()):
+def poly_equal(e1, e2, atoms, bits=32, where=(), admitted=None):
     """Identity of two add/sub/mul/const expressions over atoms modulo 2^bits, by evaluation on a grid
     (4 points per variable: polynomials of degree <= 3 per variable over a ring are decided only
     heuristically in general, so the caller additionally requires both sides to be built from add/sub/mul)."""
@@ -277,6 +277,8 @@ def poly_equal(e1, e2, atoms, bits=32, where=()):
                 pass
         if skip:
             continue
+        if admitted is not None:
+            admitted.append(1)
         try:
             a = eval_concrete(e1, env) & paths.mask(bits)
             b = eval_concrete(e2, env) & paths.mask(bits)
@@ -413,7 +415,20 @@ def check_w4(chk, m, fn, wh, fmt_arg, states):
                     chk.ob("W4.set-num-frames", "%s %s" % (pid, f), True,
                            "sample_length left alone when there is no fact chunk", fs.loc, fs.name)
                 else:
-                    chk.ob("W4.set-num-frames", "%s %s" % (pid, f), False, "%s is not updated on this path" % f, fs.loc, fs.name)
+                    # not stored on this path: the member keeps its old value, which is right exactly when the path's own
+                    # conditions (over the old members and the argument) make the old value equal to the required one
+                    # (an early return taken when the header already describes this much data)
+                    adm = []
+                    r = poly_equal(A(f), w, names, where=[(subst(c_), t_) for c_, t_, i_ in p.conds if i_ is None or i_.op != "switch"],
+                                   admitted=adm) if A(f) in names else None
+                    if r is not None and r[0] and adm:
+                        chk.ob("W4.set-num-frames", "%s %s" % (pid, f), True,
+                               "%s is left alone on this path, and the path is taken only where the old value already equals %s "
+                               "(%d admitted grid points)" % (f, text[f], len(adm)), fs.loc, fs.name)
+                    else:
+                        chk.ob("W4.set-num-frames", "%s %s" % (pid, f), False, "%s is not updated on this path%s" % (
+                            f, "; the path's conditions admit e.g. %s where the old value is not %s" % (
+                                {k[1]: v for k, v in r[1].items()}, text[f]) if r is not None and not r[0] else ""), fs.loc, fs.name)
                 continue
             g = subst(got)
             if not is_poly(g, names):
